@@ -33,10 +33,16 @@ def main():
     ap.add_argument("--tier", default="quick")
     ap.add_argument("--confirm", action="store_true")
     ap.add_argument("--seed", default="0")
+    ap.add_argument("--head", action="store_true", help="use /verif's committed HEAD (not the working tree) for the copy")
     ap.add_argument("--dir", default="seeded", help="seeded (defects, expected: detected) | harmless (rewrites, expected: no alarm)")
     a = ap.parse_args()
     ids = a.ids or sorted(p.name for p in (V / a.dir).iterdir() if (p / "patch.diff").exists())
-    sh(f"rsync -a --delete --exclude .git --exclude replays {V}/ {COPY}/")
+    if a.head:
+        sh(f"mkdir -p {COPY} && find {COPY} -mindepth 1 -maxdepth 1 ! -name lean -exec rm -rf {{}} +")
+        sh(f"cd {V} && git archive HEAD | tar -x -C {COPY}")
+        sh(f"rsync -a {V}/lean/.lake/ {COPY}/lean/.lake/")
+    else:
+        sh(f"rsync -a --delete --exclude .git --exclude replays {V}/ {COPY}/")
     (COPY / "replays").mkdir(exist_ok=True)
     sh(f"git -C /repo worktree remove --force {WT}")
     r = sh(f"git -C /repo worktree add --detach {WT} HEAD")
